@@ -4262,7 +4262,7 @@ def part_c05(ctx):
         c = FixedCase([['n', {'k': 'int', 'kind': kind, 'r': {}, 'occ': occ(False, 1, 1)}]])
         for i in vals:
             c05_verdicts(ctx, c, {'o': ['f', [['n', {'i': str(i)}]]]}, 'int-range' if not lo <= i <= hi else None, B_req, B_conf)
-    ctx.cov['exhaustive'] = 'Integer8 / UnsignedInteger8: every value of the range and 3 beyond on each side; 16-bit: boundaries +-2'
+    ctx.cov['exhaustive_parts'] = 'Integer8 / UnsignedInteger8: every value of the range and 3 beyond on each side; 16-bit: boundaries +-2'
     for mn, mx in ((0, 2), (1, 3), (2, 2), (0, None), (2, None)):
         c = FixedCase([['m', {'k': 'int', 'kind': 'i32', 'r': {}, 'occ': occ(True, mn, mx)}]])
         top = (mx if mx is not None else mn + 1) + 2
